@@ -769,3 +769,17 @@ Proof.
   exists f1. split; [exact Hrun|]. cbn [run_ready] in Hr2. destruct Hr2 as [Hop _].
   pose proof (step_safe c s1 o HI1 Hop f1 Hrep1) as Hst. rewrite E2 in Hst. destruct (Hst Hwf2) as [_ Himg]. exact Himg.
 Qed.
+
+(* ---------- the bytes on disk after any script are the encodings of the model's records ---------- *)
+Theorem bytes_on_disk c ops s0 : run_ready c init ops -> rep s0 (s_dir init) -> trace_wf (snd (run c init ops)) ->
+  exists s1, fs_run s0 (snd (run c init ops)) = Some s1 /\ rep s1 (s_dir (fst (fst (run c init ops)))).
+Proof.
+  intros Hr Hrep Hwf. destruct (script_crash_safe c ops init s0 (proj1 init_inv) Hr Hrep Hwf) as [H _]; [|exact H].
+  intros s' o HI Hop _. apply step_safe; assumption.
+Qed.
+
+Lemma rep_sizes s d id f : rep s d -> dir_get d id = Some f -> exists b, s (FData id) = Some b /\ blen b = data_size (d_data f).
+Proof.
+  intros Hr Hg. destruct (rep_get s d id f Hr Hg) as [H _]. eexists. split; [exact H|].
+  clear. induction (d_data f) as [|e es IH]; cbn [file_bytes data_size]; [reflexivity|]. rewrite blen_app, enc_entry_size, IH. reflexivity.
+Qed.
